@@ -14,7 +14,7 @@ def claim(pid, text, note, ref, conc=False):
     CLAIMED[pid] = ("model_checking", text, note, ref, conc)
 
 claim("C01",
-  "Bounded model checking of the real pop/push (and bufferHeader/bufferSlice helpers) from an arbitrary quiescent free list: one allocation that may stall anywhere against an adversary of K allocate/recycle operations, and T symmetric threads, under a symbolic schedule at single shared-access granularity (R rounds). Oracle: ghost owner per slot, slot-boundary/extent/capacity of every returned buffer, payload+header signature re-read before recycle. unsat = no schedule/inputs within the bounds break it.",
+  "Bounded model checking of the real pop/push (and bufferHeader/bufferSlice helpers) from an arbitrary quiescent free list: one allocation that may stall anywhere against an adversary of K allocate/recycle operations, and T symmetric threads, under a symbolic schedule at single shared-access granularity (R rounds). Oracle: ghost owner per slot, slot-boundary/extent/capacity of every returned buffer, payload+header signature re-read before recycle. unsat = no schedule/inputs within the bounds break it. Hook families (sequential, stall point enumerated): a stalled allocation (hook) and a stalled recycle (hookpush: e.g. between tail CAS and link, recycled slices carrying a chain link) against P earlier and K concurrent adversary operations.",
   "sequential consistency; bounds (slots, ops, threads, rounds, retry unrollings with unwinding assertions) as in evidence; sync.Pool.Get modelled as New(); environment-held slots never touched",
   "DESIGN.md 9/C01", True)
 claim("C02",
@@ -29,7 +29,7 @@ claim("C05",
   "sequential consistency; elements carry status=closed so the drain loop body is `continue`; the send loop's write of queued polling events is abstracted as 'in flight'; channel contents are counts; the session-level harness explores ONE preemption per run",
   "DESIGN.md 9/C05", True)
 claim("C15",
-  "Stream-pool ring (push/pop): one inductive step from an arbitrary valid ring state (64-bit cursors symbolic, capacity from a listed set) with a symbolic operation sequence against a FIFO model; SessionManager.GetStream/PutBack over the session model: histories of get/request/deliver/answer/read/put-back/peer-close by two callers: every stream handed out is open, on a live session, carries no old bytes, is clean, is not held by the other caller; active-stream count == held + pooled after every step. One genuine defect found and fixed (discarded pooled streams were not closed).",
+  "Stream-pool ring (push/pop): one inductive step from an arbitrary valid ring state (64-bit cursors symbolic, capacity from a listed set) with a symbolic operation sequence against a FIFO model; SessionManager.GetStream/PutBack over the session model: histories of get/request/deliver/answer/read/put-back/peer-close by two callers: every stream handed out is open, on a live session, carries no old bytes, is clean, is not held by the other caller; active-stream count == held + pooled after every step. Two genuine defects found and fixed (discarded pooled streams were not closed; a response arriving after put-back was handed to the next caller).",
   "sequential histories; concurrency of callers is covered only through the lock discipline of the ring (not checked here); session loss not in the histories",
   "DESIGN.md 9/C15")
 
@@ -46,8 +46,8 @@ claim("C07",
   "sequential histories only (one step at a time) plus the single-preemption windows of H_SM_flushwindow / H_SM_wakewindow: the concurrent orderings named in the property are NOT covered beyond the recorded finding F-CLOSEOVERTAKE; 1-2 streams",
   "DESIGN.md 15.3/C07")
 claim("C08",
-  "ReadBytes/Peek results are remembered across further reads of every kind and across unrelated allocate/scribble/recycle activity on the same buffer manager: contents stay equal to the model bytes and the slot a zero-copy result lives in is never on its class's free chain until ReleasePreviousRead; afterwards all buffers are available again.",
-  "single stream; the interference is a harness loop over the real pop/recycleBuffer; close/late-data interplay is not covered",
+  "ReadBytes/Peek results are remembered across further reads of every kind and across unrelated allocate/scribble/recycle activity on the same buffer manager: contents stay equal to the model bytes and the slot a zero-copy result lives in is never on its class's free chain until ReleasePreviousRead; afterwards all buffers are available again. Over the session model (H_C08_late): a zero-copy result is held while the sender closes the stream and socket-fallback data flushed before the close arrives after the close notification, with other traffic allocating meanwhile.",
+  "the interference is a harness loop over the real pop/recycleBuffer; close/late-data interplay only in the one ordering of H_C08_late",
   "DESIGN.md 15.3/C08")
 claim("C09",
   "Session model histories of up to L real API steps on 1-2 streams (write+flush of sizes that use one slice, several slices or the socket fallback; deliver either direction; reads; release; close on either end at any point; queue-full), then wind-down: both ends close everything, all events are delivered, and every size class must again have its full free count with a consistent free chain. Flush-window family (H_SM_flushwindow): with the send queue full a further Flush enters its retry loop and is stopped at every synchronisation point while the server consumes the queue or closes the stream (close delivered to the client): Flush returns a documented result, leaves nothing buffered, and the wind-down census holds. Sync-point hook family: the main call runs sequentially on the real code and is stopped in front of its k-th synchronisation operation (atomic, lock acquisition, channel operation; k is enumerated) while a closure standing for the other goroutines / the peer runs to completion.",
